@@ -83,6 +83,51 @@ def gen_problem(rng, max_q=5, max_cuts=2, allow_big=True, moves=False, idle_ok=T
             "obs": obs, "idle": idle, "part": [part.get(q) for q in range(nq)]}
 
 
+def gen_chain_problem(rng):
+    """three or four partitions in a chain; the partition holding qubit 0 takes no part in cut 0 but in a later cut, and the cut
+    gates belong to different families (so that the order of the joint basis list matters)"""
+    npart = rng.randint(3, 4)
+    sizes = [rng.randint(1, 2) for _ in range(npart)]
+    nq = sum(sizes)
+    part, q = [], 0
+    groups = []
+    for k, sz in enumerate(sizes):
+        groups.append(list(range(q, q + sz)))
+        part += [k] * sz
+        q += sz
+    fams = [{"name": "cx"}, {"name": "rzz", "params": [0.7]}, {"name": "crx", "params": [1.1]}, {"name": "cz"}, {"name": "ryy", "params": [-0.4]}]
+    rng.shuffle(fams)
+    instrs = []
+    for q_ in range(nq):
+        instrs.append(gen.rand_1q(rng, q_))
+    # cut 0 between the last two partitions, later cuts walk towards partition 0
+    links = [(k, k + 1) for k in range(npart - 1)][::-1]
+    for j, (a, b) in enumerate(links):
+        g = dict(fams[j % len(fams)])
+        g["qubits"] = [rng.choice(groups[a]), rng.choice(groups[b])]
+        if rng.random() < 0.5:
+            g["qubits"].reverse()
+        instrs.append(g)
+        instrs.append(gen.rand_1q(rng, rng.randrange(nq)))
+    nobs = rng.randint(1, 3)
+    obs = gen.rand_paulis(rng, nq, nobs, "IXYZ")
+    return {"nq": nq, "qregs": [nq], "instrs": instrs, "labels": list(part), "pool_idx": rng.sample(range(len(gen.LABEL_POOL)), npart),
+            "obs": obs, "idle": [], "part": list(part)}
+
+
+def gen_many_cuts(rng):
+    """two partitions joined by 11-12 cut gates (two-digit cut ids) of two different families"""
+    n = rng.randint(11, 12)
+    special = set(rng.sample(range(n), rng.randint(1, 2)))
+    instrs = [gen.rand_1q(rng, 0), gen.rand_1q(rng, 1)]
+    for k in range(n):
+        # negative angles flip the sign pattern of the coefficients relative to the cx basis: a permuted basis list then shows in the signs
+        instrs.append({"name": rng.choice(["rzz", "ryy", "rxx"]), "qubits": [0, 1], "params": [rng.choice([-0.9, -2.2, 0.9])]} if k in special
+                      else {"name": "cx", "qubits": [0, 1]})
+    return {"nq": 2, "qregs": [2], "instrs": instrs, "labels": [0, 1], "pool_idx": [0, 1], "obs": gen.rand_paulis(rng, 2, 2, "XYZ"),
+            "idle": [], "part": [0, 1]}
+
+
 def build(payload):
     from qiskit.quantum_info import PauliList
     qc = canon.build_circuit({"nq": payload["nq"], "qregs": payload.get("qregs"), "instrs": payload["instrs"]})
